@@ -60,3 +60,18 @@ Theorem C15_callback_links_roundtrip : forall ps sl,
   /\ rf_destroy r = match sl_destroy sl with Some n => slot_index ps n | None => None end.
 Proof. exact roundtrip_callback_links. Qed.
 Print Assumptions C15_callback_links_roundtrip.
+
+(* arrays: what the scanner's writer (Model/C07T.write_ty, tied to GIRWriter._write_type) says about an array is what the
+   compiler's reader (Model/C15T.c_read_array, girparser.c:start_type, tied to the typelibs of the run) takes from it - the
+   kind, and for C arrays zero-termination, length index and fixed size, for EVERY combination and every magnitude *)
+From GIV.Model Require Import C07T C15T.
+From GIV.Proofs Require Import C15T.
+Theorem C15_array_attributes_roundtrip : forall ns k c z s l e, array_kind_ok k = true ->
+  c_read_array (attrs_of (write_ty ns (AArray k c z s l e))) =
+  match k with
+  | None => {| ca_kind := 0; ca_zero := z; ca_len := l; ca_size := s |}
+  | Some n => {| ca_kind := if str_eqb n s_garray then 1 else if str_eqb n s_gbytearray then 3 else 2;
+                 ca_zero := false; ca_len := None; ca_size := None |}
+  end.
+Proof. exact array_attributes_roundtrip. Qed.
+Print Assumptions C15_array_attributes_roundtrip.
